@@ -117,6 +117,9 @@ func runC15(c *Ctx) {
 	}
 	// (3) link + hooks
 	checkGuards(r, p, "lock/guarded-by", []GuardRow{{Pkg: ev, Type: "event", Mutex: "linkMutex", Fields: []string{"link"}}})
+	// unhooking the previous link, hooking the target and storing the new link are one critical
+	// section: two overlapping LinkTo calls otherwise both hook their target and one hook is lost track of
+	checkAtomicOperations(r, p, "atomic/one-section-per-operation", ev, "event", "linkMutex")
 	if f := p.CFGOf(ev, "event", "linkTo"); f == nil {
 		r.Unresolved("link/unhook-before-hook", ev+".event.linkTo", "method not found")
 	} else {
@@ -124,11 +127,22 @@ func runC15(c *Ctx) {
 			cl, ok := n.(*ast.CallExpr)
 			return ok && exprKey(cl.Fun) == "target.Hook"
 		})
+		// Unhook of the current link, however the link value travels (a temporary, the result of a
+		// swap helper): the receiver resolves to the link field
+		unhooks := map[*ast.CallExpr]bool{}
+		for _, c := range f.Calls(func(c *ast.CallExpr) bool {
+			se, ok := ast.Unparen(c.Fun).(*ast.SelectorExpr)
+			return ok && se.Sel.Name == "Unhook" && len(c.Args) == 0
+		}) {
+			if cpt, found := f.PointOf(c); found && strings.HasSuffix(f.KeyAt(ast.Unparen(c.Fun).(*ast.SelectorExpr).X, cpt), ".link") {
+				unhooks[c] = true
+			}
+		}
 		isUnhook := func(n ast.Node) bool {
 			cl, ok := n.(*ast.CallExpr)
-			return ok && strings.HasSuffix(exprKey(cl.Fun), ".link.Unhook")
+			return ok && unhooks[cl]
 		}
-		hadLink := f.RelEdges(func(rel Rel) bool {
+		hadLink := f.RelEdgesAt(func(rel Rel) bool {
 			return rel.Op == "!=" && (strings.HasSuffix(rel.L, ".link") && rel.R == "nil" || strings.HasSuffix(rel.R, ".link") && rel.L == "nil")
 		})
 		bad := len(hooks) != 1 || len(hadLink) == 0
@@ -593,29 +607,43 @@ func checkPromiseOnTrigger(r *Reporter, p *Prog, pkg, t string) {
 			}
 		}
 	}
-	// the unsubscribe handle: a literal that deletes the registered id under the mutex
+	// the unsubscribe handle: a literal - in OnTrigger or in a registration helper of it - that deletes
+	// the registered id under the mutex (directly or through a removal helper it calls)
 	if len(bad) == 0 {
 		okUnsub := false
-		ast.Inspect(fdo.Body, func(n ast.Node) bool {
-			lit, isLit := n.(*ast.FuncLit)
-			if !isLit || len(lit.Type.Params.List) != 0 {
-				return true
+		seenLit := map[*ast.FuncLit]bool{}
+		for _, b := range f.G.Blocks {
+			for _, bn := range b.Nodes {
+				ast.Inspect(bn, func(n ast.Node) bool {
+					lit, isLit := n.(*ast.FuncLit)
+					if !isLit || seenLit[lit] || len(lit.Type.Params.List) != 0 {
+						return true
+					}
+					seenLit[lit] = true
+					lf := newFuncCFG(p, info, lit.Body, okey+"$unsubscribe")
+					lheld := lf.LocksHeld(nil)
+					for _, c := range lf.Calls(func(c *ast.CallExpr) bool {
+						se, ok := ast.Unparen(c.Fun).(*ast.SelectorExpr)
+						return ok && se.Sel.Name == "Delete" && len(c.Args) == 1 && fieldSel(info, se.X, "callbacks")
+					}) {
+						cpt, found := lf.PointOf(c)
+						if !found || idObj == nil {
+							continue
+						}
+						if !(objOfIdent(info, c.Args[0]) == idObj || lf.IsVar(c.Args[0], cpt, idObj)) {
+							continue
+						}
+						// the mutex of the event, in whatever frame the lock was taken
+						for path, m := range lheld(cpt) {
+							if strings.HasSuffix(path, ".mutex") && m >= ModeW {
+								okUnsub = true
+							}
+						}
+					}
+					return true
+				})
 			}
-			AnalyzeLocks(lit.Body, LockSet{}, &FlowOpts{Info: info}, func(m ast.Node, _ []ast.Node, h LockSet) {
-				c, ok := m.(*ast.CallExpr)
-				if !ok || len(c.Args) != 1 {
-					return
-				}
-				se, ok := ast.Unparen(c.Fun).(*ast.SelectorExpr)
-				if !ok || se.Sel.Name != "Delete" || !fieldSel(info, se.X, "callbacks") {
-					return
-				}
-				if idObj != nil && objOfIdent(info, c.Args[0]) == idObj && h[mu] >= ModeW {
-					okUnsub = true
-				}
-			})
-			return true
-		})
+		}
 		if !okUnsub {
 			bad = append(bad, "no unsubscribe handle that deletes the registered id under the mutex")
 		}
